@@ -459,6 +459,107 @@ def classify_enum_unsigned(case, detail):
     return None
 
 
+def run_literals(chk, workdir):
+    """`_to_literal` of both C++ generators on lone literals in every spelling (blanks and parentheses around the sign or the
+    digits, upper and lower case hexadecimal, values at the edges of int, unsigned, long) and on random near-literals: the text
+    written is what `CppLit.toLiteral` writes, `int(text, 0)` is `CppLit.pyInt0`, and g++ reads from the written text the integer
+    the literal denotes (theorem C14_lone_literal_rendered), which is what `CppLit.cppRead` says it reads"""
+    from prophyc.generators import cpp as gcpp, cpp_full as gfull
+    rng = chk.rng
+    edges = [0, 1, 5, 10, 255, 2 ** 31 - 1, 2 ** 31, 2 ** 31 + 1, 2 ** 32 - 1, 2 ** 32, 2 ** 32 + 1, 2 ** 63 - 1, 2 ** 63, 2 ** 64 - 1, 0xC0000000, 0xdeadbeef, 0x8000000A]
+    lone = []
+    for _ in range(chk.scale(150, 1500)):
+        mag = rng.choice(edges) if rng.random() < 0.7 else rng.randrange(2 ** rng.choice([8, 31, 32, 33, 63, 64]))
+        neg = rng.random() < 0.6 and mag <= 2 ** 63
+        if rng.random() < 0.5:
+            digits = '%s%x' % (rng.choice(['0x', '0x', '0X']), mag)
+            digits = ''.join(c.upper() if rng.random() < 0.4 and c not in 'xX' else c for c in digits)
+        else:
+            digits = str(mag)
+
+        def blanks():
+            return rng.choice(['', '', '', ' ', '  ', '\t'])
+        pre_sign, post_sign, tail = '', '', ''
+        for _ in range(rng.choice([0, 0, 1, 1, 2])):
+            pre_sign += blanks() + '('
+            tail = ')' + blanks() + tail
+        for _ in range(rng.choice([0, 0, 1, 2])):
+            post_sign += blanks() + '('
+            tail = blanks() + ')' + tail
+        sign = '-' if neg else rng.choice(['', '', '', '+'])
+        text = blanks() + (pre_sign if sign else '') + sign + blanks() + post_sign + blanks() + digits + tail + blanks() if sign else \
+            blanks() + pre_sign + post_sign + blanks() + digits + tail + blanks()
+        lone.append((text, -mag if neg else mag))
+    noise = []
+    for _ in range(chk.scale(300, 3000)):
+        noise.append(''.join(rng.choice(' \t()()--+0123456789aAfFxX_u') for _ in range(rng.randint(1, 9))))
+    reqs = [{'op': 'cpp_literal', 'text': t} for t, _ in lone] + [{'op': 'cpp_literal', 'text': t} for t in noise]
+    ans = client.batch(reqs)
+    written = []
+    for (text, value), m in zip(lone + [(t, None) for t in noise], ans):
+        casej = {'syntax': 'literal', 'text': text, 'value': value}
+        chk.count(('literal', text), value is not None)
+        chk.bump('kind:literal ' + ('lone' if value is not None else 'noise'))
+        got = {}
+        for name, fn in (('cpp', gcpp._to_literal), ('cpp_full', gfull._to_literal)):
+            try:
+                got[name] = fn(text)
+            except Exception as ex:  # noqa
+                got[name] = '%s: %s' % (type(ex).__name__, str(ex)[:80])
+        try:
+            py = int(text, 0)
+        except ValueError:
+            py = None
+        chk.corr_compared += 1
+        if got['cpp'] != m['literal'] or got['cpp_full'] != m['literal'] or (py != m['py'] and text.isascii()):
+            chk.correspondence_mismatch('CppLit.toLiteral = _to_literal, CppLit.pyInt0 = int(text, 0)', casej, {'literal': got, 'py': py},
+                                        {'literal': m['literal'], 'py': m['py']})
+            continue
+        if value is not None:
+            if m['lone'] != value:
+                chk.correspondence_mismatch('CppLit.loneValue = the integer of a lone literal', casej, value, m['lone'])
+            elif -2 ** 63 <= value < 2 ** 64:
+                written.append((casej, got['cpp'], value, m))
+    # what g++ reads from the written texts: one translation unit, every literal as an enumerator of its own enum
+    for start in range(0, len(written), 200):
+        part = written[start:start + 200]
+        src = os.path.join(workdir, 'lit%d.cpp' % start)
+        with open(src, 'w') as f:
+            f.write('#include <stdio.h>\n')
+            for k, (_, lit, _, _) in enumerate(part):
+                f.write('enum { K%d = %s };\n' % (k, lit))
+            f.write('int main() {\n')
+            for k in range(len(part)):
+                f.write(' printf("%%d %%llu\\n", (int)(K%d < 0), (unsigned long long)K%d);\n' % (k, k))
+            f.write('}\n')
+        p = subprocess.run(['g++', '-std=c++11', '-w', src, '-o', src[:-4]], stdout=subprocess.PIPE, stderr=subprocess.STDOUT, timeout=600)
+        if p.returncode != 0:
+            bad = sorted(set(int(x) for x in re.findall(r'lit\d+\.cpp:(\d+):', p.stdout.decode(errors='replace'))))
+            for line in bad[:5]:
+                if 2 <= line < 2 + len(part):
+                    casej, lit, value, m = part[line - 2]
+                    chk.property_violation(casej, {'what': 'the literal written into the C++ headers does not compile', 'written': lit,
+                                                   'compiler': [x for x in p.stdout.decode(errors='replace').splitlines() if ':%d:' % line in x][:2]})
+            if not bad:
+                raise core.Infra('g++ failed on the literal file: ' + p.stdout.decode(errors='replace')[:300])
+            continue
+        lines = subprocess.run([src[:-4]], stdout=subprocess.PIPE, timeout=60).stdout.decode().split('\n')
+        for (casej, lit, value, m), line in zip(part, lines):
+            negative, magnitude = line.split()
+            seen = int(magnitude) - (2 ** 64 if negative == '1' else 0)
+            chk.bump('literal read by g++')
+            if seen != value:
+                chk.property_violation(casej, {'what': 'the literal written into the C++ headers is read as another integer', 'written': lit,
+                                               'c++': seen, 'prophyc': value})
+            if m['rendered']:       # the reader of the model covers the rendered forms; a pasted parenthesised text is the compiler's alone
+                chk.corr_compared += 1
+                chk.bump('literal rendered')
+                if m['read'] != seen:
+                    chk.correspondence_mismatch('CppLit.cppRead = what g++ reads from the written literal', dict(casej, written=lit), seen, m['read'])
+            else:
+                chk.bump('literal pasted')
+
+
 def run_enum_own_reference(chk, workdir):
     """isar enumerators that refer to earlier enumerators of their own enum: one integer in the layout, the Python module and both
     C++ headers (an expression with a negative intermediate result is known finding D190)"""
@@ -583,6 +684,7 @@ def run_c14(tier):
         run_isar_stream(chk, workdir, chk.scale(15, 100), c_safe=False)
         run_isar_host_text(chk, workdir)
         run_enum_own_reference(chk, workdir)
+        run_literals(chk, workdir)
         run_const_edges(chk, workdir)
     finally:
         shutil.rmtree(workdir, ignore_errors=True)
